@@ -48,7 +48,8 @@ assumptions = [
     "byte-level part: element traits are those of the harness (4 and 8 byte elements holding a token; init/fini as in "
     "harness/drv_array.c; f8 = destructor only); reference part: the library's array traits and metatype-reference "
     "traits with harness metatype instances; identifier traits are exercised by a self-contained harness routine without a "
-    "model of their own; the traits of config items and commands are not driven here (config items: C10, commands: C11)",
+    "model of their own, and so are config item traits (names and children; item values are left to C10); command traits "
+    "are not driven here (C11)",
     "the destructor-only harness type f8 treats a zeroed element as an empty reference (its destructor does nothing for "
     "it and the stored-token comparison skips it), as reference_array<T> does",
     "arrays of arrays are built without cycles (a buffer that contains a reference to itself is never released)",
@@ -349,6 +350,9 @@ def refs_scripts(tier, seed, scale=1):
     # arrays of identifiers (mpt_identifier_traits): names inside the element (up to 11 bytes), at the boundary, on the heap
     for cnt in (0, 1, 8, 9, 10, 11, 12, 13, 14, 27, 28, 255, 300, 1000):
         out.append(("rid:%d" % cnt, ["r handles 1", "r identcheck h0 %d" % cnt, "r leaf h0 2", "r identcheck h0 %d" % cnt, "r end"]))
+    # arrays of config items (mpt_config_item_traits): name, children; copies between slots, onto themselves, between buffers
+    for cnt in (0, 3, 10, 11, 12, 13, 40, 300):
+        out.append(("rcf:%d" % cnt, ["r handles 1", "r cfgcheck h0 %d" % cnt, "r leaf h0 2", "r cfgcheck h0 %d" % cnt, "r end"]))
     r = gen.rng(id, tier, seed, "refs")
     n = (300 if tier == "quick" else 5000) * scale
     hs = ["h0", "h1", "h2", "h3"]
